@@ -1635,10 +1635,12 @@ the receiver, nothing happens.
 func (r *stack) lock() {
 	if r.canMutex() {
 		if mutex, found := r.mutex(); found {
+			verifPoint("lock.want", r)
 			sc, _ := r.config()
 			_now := now()
 			sc.ldr = &_now
 			mutex.Lock()
+			verifPoint("lock.held", r)
 		}
 	}
 }
@@ -1652,6 +1654,7 @@ func (r *stack) unlock() {
 	if r.canMutex() {
 		if mutex, found := r.mutex(); found {
 			mutex.Unlock()
+			verifPoint("lock.released", r)
 			sc, _ := r.config()
 			sc.ldr = nil
 		}
